@@ -16,3 +16,4 @@ for m in muts:
             print(f"[{pid}] {m['file'].split('/')[-1]}: {m['old'][:40]!r} -> {m['new'][:40]!r} :: rc={r.returncode} {(lines[0] if lines else 'MISSED')}")
     finally:
         subprocess.run(["git", "-C", "/repo", "checkout", "--", "."])
+subprocess.run(["/venv/bin/python", "/verif/tools/gen_tables.py"])
